@@ -259,4 +259,19 @@ def PopsOnly (pre post : State) : Prop :=
   isSuffix post.fvec pre.fvec ∧ post.input = pre.input ∧ post.output = pre.output ∧
   post.graph = pre.graph ∧ post.bindings = pre.bindings ∧ post.quote = pre.quote ∧ post.send = pre.send
 
+/-- documented guards ("if the top item is zero this acts as a NOOP", "if at least one divisor is zero the
+instruction acts as NOOP") that can fail although every operand is present -/
+def guardFails (i : Instr) (s : State) : Bool :=
+  match i with
+  | .integer .div | .integer .mod => match s.int with
+    | b :: _ :: _ => b == 0
+    | _ => false
+  | .float .div | .float .mod => match s.float with
+    | b :: _ :: _ => b == 0
+    | _ => false
+  | .vec .f .div => match s.fvec, s.int with
+    | top :: second :: _, off :: _ => (divOverlap second top off.toInt).isNone
+    | _, _ => false
+  | _ => false
+
 end Pushr.C10
